@@ -15,6 +15,7 @@ import Karp.Proofs.DraBudgetLemmas
 import Karp.Proofs.DraCapacityLemmas
 import Karp.Proofs.ReservedLedgerLemmas
 import Karp.Spec.Reserved
+import Karp.Model.VolumeAlternatives
 
 namespace Karp.C17
 open Karp.Reservation Karp.Req
@@ -630,5 +631,115 @@ example : consumedDim (some 3) (Dim.ofFields 8 (some 2) [2, 4, 8] none) = some 4
     consumedDim (some 7) (Dim.ofFields 8 (some 2) [] (some (2, some 6, some 2))) = none := by decide
 
 end Capacity
+
+/-! ### The loop of `NodeClaim.CanAdd` over the pod's volume topology alternatives
+
+Full statement wanted by the property (strict mode: compatible reserved capacity exists but is exhausted ⇒ the pod is
+deferred, i.e. the caller must SEE the reserved-offering error):
+
+    theorem C17_alternatives_keep_reserved_error (alts) (h : .reserved ∈ alts) (hno : .ok ∉ alts) : canAdd alts = .reserved
+
+The code at the pinned commit (`canAdd`) violated it (corpus/c17.pass/015): the error of the LAST alternative was returned,
+so a plain failure of a later alternative shadowed the reserved-offering error of an earlier one and the pod fell through
+to a lower-weight NodePool.  Found by `c17.pass` and repaired in /repo by fix 4e92d1703 (known_findings.json `fixed`); the
+code is now `canAddFixed`.  Proved: for the old loop the negation on a concrete witness and the partial statement (last
+alternative decisive; every pod with ONE alternative keeps the error); for the code as it is now the full statement,
+`C17_alternatives_keep_reserved_error_fixed`. -/
+section Alternatives
+open Karp.VolumeAlternatives Karp.FirstSuccess
+
+theorem canAddFrom_no_ok (last : Outcome) (alts : List Outcome) (hno : Outcome.ok ∉ alts) :
+    canAddFrom last alts = (alts.getLast?).getD last := by
+  induction alts generalizing last with
+  | nil => rfl
+  | cons e rest ih =>
+    have he : e ≠ .ok := fun h => hno (by simp [h])
+    have hr : Outcome.ok ∉ rest := fun h => hno (by simp [h])
+    cases e with
+    | ok => exact absurd rfl he
+    | fail =>
+      simp only [canAddFrom]; rw [ih _ hr]
+      cases rest with
+      | nil => simp
+      | cons h t =>
+        rw [List.getLast?_cons_cons]
+        cases hl : (h :: t).getLast? with
+        | none => simp at hl
+        | some v => rfl
+    | reserved =>
+      simp only [canAddFrom]; rw [ih _ hr]
+      cases rest with
+      | nil => simp
+      | cons h t =>
+        rw [List.getLast?_cons_cons]
+        cases hl : (h :: t).getLast? with
+        | none => simp at hl
+        | some v => rfl
+
+/-- negation witness: first alternative reserved-offering error, second a plain failure ⇒ the caller sees a plain failure -/
+theorem C17_alternatives_shadow_reserved_error :
+    canAdd [.reserved, .fail] = .fail ∧ Outcome.reserved ∈ [Outcome.reserved, Outcome.fail] ∧ Outcome.ok ∉ [Outcome.reserved, Outcome.fail] := by
+  decide
+
+/-- partial: when no alternative succeeds the LAST alternative's error is what the caller sees -/
+theorem C17_alternatives_keep_reserved_error_partial (alts : List Outcome) (hno : Outcome.ok ∉ alts)
+    (hlast : alts.getLast? = some .reserved) : canAdd alts = .reserved := by
+  unfold canAdd
+  rw [canAddFrom_no_ok _ _ hno, hlast]; rfl
+
+/-- a pod with a single alternative (no volume requirements, or one topology term per volume) keeps the error -/
+theorem C17_single_alternative_keeps_reserved_error (e : Outcome) : canAdd [e] = e := by
+  cases e <;> rfl
+
+/-- a success is never turned into a deferral and vice versa: the loop answers ok iff some alternative succeeds -/
+theorem C17_alternatives_ok_iff (alts : List Outcome) : canAdd alts = .ok ↔ Outcome.ok ∈ alts := by
+  unfold canAdd
+  suffices h : ∀ last, last ≠ .ok → (canAddFrom last alts = .ok ↔ Outcome.ok ∈ alts) from h .fail (by decide)
+  induction alts with
+  | nil => intro last hl; simp [canAddFrom, hl]
+  | cons e rest ih =>
+    intro last hl
+    cases e with
+    | ok => simp [canAddFrom]
+    | fail => simp only [canAddFrom]; rw [ih .fail (by decide)]; simp
+    | reserved => simp only [canAddFrom]; rw [ih .reserved (by decide)]; simp
+
+theorem canAddFromFixed_reserved (alts : List Outcome) (hno : Outcome.ok ∉ alts) :
+    canAddFromFixed .reserved alts = .reserved := by
+  induction alts with
+  | nil => rfl
+  | cons e rest ih =>
+    have he : e ≠ .ok := fun h => hno (by simp [h])
+    have hr : Outcome.ok ∉ rest := fun h => hno (by simp [h])
+    cases e with
+    | ok => exact absurd rfl he
+    | fail => simpa [canAddFromFixed] using ih hr
+    | reserved => simpa [canAddFromFixed] using ih hr
+
+/-- the full statement holds for the proposed repair -/
+theorem C17_alternatives_keep_reserved_error_fixed (alts : List Outcome) (h : Outcome.reserved ∈ alts) (hno : Outcome.ok ∉ alts) :
+    canAddFixed alts = .reserved := by
+  unfold canAddFixed
+  suffices hs : ∀ last, canAddFromFixed last alts = .reserved from hs .fail
+  induction alts with
+  | nil => simp at h
+  | cons e rest ih =>
+    intro last
+    have he : e ≠ .ok := fun h' => hno (by simp [h'])
+    have hr : Outcome.ok ∉ rest := fun h' => hno (by simp [h'])
+    cases e with
+    | ok => exact absurd rfl he
+    | reserved =>
+      simp only [canAddFromFixed]
+      have : (if last == Outcome.reserved then Outcome.reserved else Outcome.reserved) = .reserved := by split <;> rfl
+      rw [this]; exact canAddFromFixed_reserved rest hr
+    | fail =>
+      have hin : Outcome.reserved ∈ rest := by simpa using h
+      simp only [canAddFromFixed]
+      exact ih hin hr _
+
+example : canAdd [.fail, .reserved] = .reserved ∧ canAdd [.reserved, .ok] = .ok ∧ canAddFixed [.reserved, .fail] = .reserved := by decide
+
+end Alternatives
 
 end Karp.C17
